@@ -284,8 +284,10 @@ def gen_case(rng, idx):
     # follow-up calculations on the SAME model (same solution, same phase list, new targets / amounts / restrictions):
     # prep() then reuses the equation system (check_same_model -> quick_setup) instead of rebuilding it
     stages = [pps]
+    ss_stages = [ss]
     extra_defs = []
-    if rel_ex is None and rel_sf is None and rng.random() < 0.4:
+    binary = bool(ss) and len(ss["comps"]) == 2
+    if rel_ex is None and rel_sf is None and rng.random() < (0.75 if binary else 0.4):
         gas_lines = [l for l in lines if l.startswith(" CO2(g) ") or l.startswith(" O2(g) ")]
         for k in range(rng.choice([1, 1, 2])):
             num = k + 2
@@ -305,6 +307,22 @@ def gen_case(rng, idx):
                 pk.append({"name": p0["name"], "target": target, "init": init, "kind": kind, "force": False})
             extra_defs += gas_lines
             stages.append(pk)
+            # the solid solution may be REDEFINED for the follow-up calculation: other name (full prep), ideal <-> Guggenheim,
+            # other Guggenheim parameters, same end-member phases (they share the per-phase record of the engine)
+            s2 = None
+            if binary and rng.random() < 0.75:
+                ideal2 = (not ss["ideal"]) if rng.random() < 0.7 else ss["ideal"]   # mostly flip ideal <-> Guggenheim
+                s2 = {"name": "SSol%d" % num, "num": num, "ideal": ideal2,
+                      "comps": [(c, 0.0 if rng.random() < 0.6 else float(fmt(logu(rng, 1e-5, 1e-2)))) for c, _ in ss["comps"]]}
+                extra_defs += ["SOLID_SOLUTIONS %d" % num, " %s" % s2["name"]]
+                if ideal2:
+                    extra_defs += ["  -comp %s %s" % (c, fmt(m)) for c, m in s2["comps"]]
+                else:
+                    s2["gugg"] = (round(rng.uniform(-1.5, 3.5), 2), round(rng.uniform(-1.9, 1.5), 2))
+                    extra_defs += ["  -comp1 %s %s" % (s2["comps"][0][0], fmt(s2["comps"][0][1])),
+                                   "  -comp2 %s %s" % (s2["comps"][1][0], fmt(s2["comps"][1][1])),
+                                   "  -Gugg_nondim %s %s" % (fmt(s2["gugg"][0]), fmt(s2["gugg"][1]))]
+            ss_stages.append(s2)
     if extra_defs:
         k = lines.index("SELECTED_OUTPUT 1")
         lines[k:k] = extra_defs
@@ -316,15 +334,18 @@ def gen_case(rng, idx):
             lines.append("USE exchange 1")
         if surf:
             lines.append("USE surface 1")
+        s2 = ss_stages[num - 1] if num - 1 < len(ss_stages) else None
         if ss:
-            lines.append("USE solid_solutions 1")
+            lines.append("USE solid_solutions %d" % (num if s2 else 1))
         if has("REACTION 1"):
             lines.append("USE reaction 1")
         if has("REACTION_TEMPERATURE 1"):
             lines.append("USE reaction_temperature 1")
+        if s2:
+            lines += ["SAVE solid_solutions %d" % num, "DUMP", " -solid_solutions %d" % num]
         lines.append("END")
     return {"id": "c%05d" % idx, "db": db, "text": "\n".join(lines) + "\n", "flags": ["dump"] if ss else [],
-            "meta": {"pps": pps, "stages": stages, "exch": exch, "surf": surf, "ss": ss, "hp": hp, "temp": temp}}
+            "meta": {"pps": pps, "stages": stages, "ss_stages": ss_stages, "exch": exch, "surf": surf, "ss": ss, "hp": hp, "temp": temp}}
 
 
 
@@ -396,6 +417,25 @@ def corpus():
     meta = {"pps": st1, "stages": [st1, st2, st3], "exch": None, "surf": None, "ss": None, "hp": False, "temp": 25.0}
     text += _punch(st1) + "USE solution 1\nUSE equilibrium_phases 2\nEND\nUSE solution 1\nUSE equilibrium_phases 3\nEND\n"
     out.append({"id": "corpus-model-reuse", "db": "phreeqc.dat", "text": text, "flags": [], "meta": meta})
+    # solid solution redefined between calculations on one instance: Guggenheim -> ideal -> Guggenheim (other parameters),
+    # same end-member phases, different names (full prep each time)
+    pg = [_pp("Gypsum", 0, 0)]
+    ssA = {"name": "CaSr_gugg", "num": 1, "comps": [("Aragonite", 0.0), ("Strontianite", 0.0)], "ideal": False, "gugg": (3.43, -1.82)}
+    ssB = {"name": "CaSr_ideal", "num": 2, "comps": [("Aragonite", 0.0), ("Strontianite", 0.0)], "ideal": True}
+    ssC = {"name": "CaSr_gugg2", "num": 3, "comps": [("Aragonite", 0.0), ("Strontianite", 0.0)], "ideal": False, "gugg": (1.2, 0.4)}
+    text = ("SOLUTION 1\n units mmol/kgw\n temp 25\n pH 8.3\n Ca 2\n Sr 20\n Na 20\n C(4) 12\n S(6) 1\n Cl 40 charge\n"
+            "EQUILIBRIUM_PHASES 1\n Gypsum 0 0\n"
+            "SOLID_SOLUTIONS 1\n CaSr_gugg\n  -comp1 Aragonite 0\n  -comp2 Strontianite 0\n  -Gugg_nondim 3.43 -1.82\n"
+            "SOLID_SOLUTIONS 2\n CaSr_ideal\n  -comp Aragonite 0\n  -comp Strontianite 0\n"
+            "SOLID_SOLUTIONS 3\n CaSr_gugg2\n  -comp1 Aragonite 0\n  -comp2 Strontianite 0\n  -Gugg_nondim 1.2 0.4\n"
+            "SAVE solid_solutions 1\n")
+    meta = {"pps": pg, "stages": [pg, pg, pg], "ss_stages": [ssA, ssB, ssC], "exch": None, "surf": None, "ss": ssA, "hp": False, "temp": 25.0}
+    text += _punch(pg, ["ss0", "sr0", "ssi0", "ss1", "sr1", "ssi1"],
+                   ['S_S("Aragonite")', 'SR("Aragonite")', 'SI("Aragonite")', 'S_S("Strontianite")', 'SR("Strontianite")', 'SI("Strontianite")']
+                   ).replace("END\n", "DUMP\n -solid_solutions 1\nEND\n")
+    for k in (2, 3):
+        text += "USE solution 1\nUSE equilibrium_phases 1\nUSE solid_solutions %d\nSAVE solid_solutions %d\nDUMP\n -solid_solutions %d\nEND\n" % (k, k, k)
+    out.append({"id": "corpus-ss-redefined", "db": "phreeqc.dat", "text": text, "flags": ["dump"], "meta": meta})
     # finding F-C03-1: precipitate_only phase next to a diffuse-layer surface (minimised from seed 0)
     pps = [_pp("Goethite", 0.75, 0.0005, "precipitate_only")]
     text = ("SOLUTION 1\n Cl 10 charge\n Fe 0.5\nEQUILIBRIUM_PHASES 1\n Goethite 0.75 0.0005 precipitate_only\n"
@@ -414,15 +454,24 @@ def q(x):
     return vlib.coq_Q(x)
 
 
-def parse_dump_ss(dump):
-    """SOLID_SOLUTIONS_RAW block of a DUMP string -> {"comps": {name: {...}}, "a0":.., "a1":.., "xb1":.., "xb2":.., "miscibility":.., "ss_in":..}
-    (first solid solution only) or None."""
+def parse_dump_ss(dump, num=1):
+    """SOLID_SOLUTIONS_RAW block with user number `num` of a DUMP string (first occurrence) ->
+    {"comps": {name: {...}}, "a0":.., "a1":.., "xb1":.., "xb2":.., "miscibility":.., "ss_in":..} (first solid solution of the
+    assemblage only) or None."""
     if not dump or "SOLID_SOLUTIONS_RAW" not in dump:
+        return None
+    block = None
+    for chunk in dump.split("SOLID_SOLUTIONS_RAW")[1:]:
+        head = chunk.split("\n", 1)[0].split()
+        if head and head[0] == str(num):
+            block = chunk
+            break
+    if block is None:
         return None
     out = {"comps": {}}
     cur = None
     started = False
-    for raw in dump.split("SOLID_SOLUTIONS_RAW", 1)[1].split("\n")[1:]:
+    for raw in block.split("\n")[1:]:
         t = raw.split("#")[0].split()
         if not t:
             continue
@@ -452,6 +501,47 @@ def parse_dump_ss(dump):
 
 def _num(v):
     return isinstance(v, float) and math.isfinite(v)
+
+
+def ss_observations(ssm, row, d, label=""):
+    """Coq terms (SS list, SSX list, absent list) and message items for one solid solution in one reaction row;
+    d: its stored state from DUMP (or None)."""
+    sss, ssx, ssabs, items = [], [], [], []
+    comps = []
+    obs = []
+    for k, (c, _) in enumerate(ssm["comps"]):
+        m, a = row.get("ss%d" % k), row.get("sr%d" % k)
+        if not (_num(m) and _num(a)):
+            return None
+        comps.append("(%s, %s)" % (q(m), q(a)))
+        obs.append((c + label, m, a))
+    sss.append("SS %s [%s]" % ("true" if ssm["ideal"] else "false", "; ".join(comps)))
+    items.append(("ss", ssm["ideal"], obs))
+    if d and d.get("ss_in") == 1.0 and all(k in d for k in ("a0", "a1")):
+        xs = []
+        okc = True
+        for k, (c, _) in enumerate(ssm["comps"]):
+            dc = d["comps"].get(c) or {}
+            si = row.get("ssi%d" % k)
+            m = row.get("ss%d" % k)
+            if not (_num(si) and _num(m) and all(_num(dc.get(f)) for f in ("fraction_x", "log10_lambda", "log10_fraction_x"))) or si < -90:
+                okc = False
+                break
+            xs.append((c + label, m, si, dc["fraction_x"], dc["log10_fraction_x"], dc["log10_lambda"]))
+        if okc and xs:
+            gap = False
+            if not ssm["ideal"] and d.get("miscibility") == 1.0 and len(xs) == 2 and _num(d.get("xb1")) and _num(d.get("xb2")):
+                gap = d["xb1"] - 1e-9 <= xs[1][3] <= d["xb2"] + 1e-9
+            ssx.append("SSX %s %s %s %s [%s]" % ("true" if ssm["ideal"] else "false", "true" if gap else "false", q(d["a0"]), q(d["a1"]),
+                                                "; ".join("SSXC %s %s %s %s %s" % tuple(q(v) for v in x[1:]) for x in xs)))
+            items.append(("ssx", ssm["ideal"], gap, d["a0"], d["a1"], xs))
+    if d and d.get("ss_in") == 0.0:
+        stored = [c.get("moles") for c in d["comps"].values()]
+        if stored and all(_num(v) for v in stored):
+            tot = sum(Fraction(v) for v in stored)
+            ssabs.append(q(tot))
+            items.append(("ssabs", float(tot)))
+    return sss, ssx, ssabs, items
 
 
 def build_case(meta, row, init_rows=None, dump=None, more_rows=()):
@@ -529,44 +619,22 @@ def build_case(meta, row, init_rows=None, dump=None, more_rows=()):
             else:
                 dest.append("SITE %s %s" % (dq, q(f)))
                 items.append((what, nm, d, f))
-    if meta["ss"]:
-        comps = []
-        obs = []
-        for k, (c, _) in enumerate(meta["ss"]["comps"]):
-            m, a = row.get("ss%d" % k), row.get("sr%d" % k)
-            if not isinstance(m, float) or not isinstance(a, float) or not (math.isfinite(m) and math.isfinite(a)):
-                return None
-            comps.append("(%s, %s)" % (q(m), q(a)))
-            obs.append((c, m, a))
-        sss.append("SS %s [%s]" % ("true" if meta["ss"]["ideal"] else "false", "; ".join(comps)))
-        items.append(("ss", meta["ss"]["ideal"], obs))
-    ssx = []
-    d = parse_dump_ss(dump) if meta["ss"] else None
-    if d and d.get("ss_in") == 1.0 and all(k in d for k in ("a0", "a1")):
-        xs = []
-        okc = True
-        for k, (c, _) in enumerate(meta["ss"]["comps"]):
-            dc = d["comps"].get(c) or {}
-            si = row.get("ssi%d" % k)
-            m = row.get("ss%d" % k)
-            if not (_num(si) and _num(m) and all(_num(dc.get(f)) for f in ("fraction_x", "log10_lambda", "log10_fraction_x"))) or si < -90:
-                okc = False
-                break
-            xs.append((c, m, si, dc["fraction_x"], dc["log10_fraction_x"], dc["log10_lambda"]))
-        if okc and xs:
-            gap = False
-            if not meta["ss"]["ideal"] and d.get("miscibility") == 1.0 and len(xs) == 2 and _num(d.get("xb1")) and _num(d.get("xb2")):
-                gap = d["xb1"] - 1e-9 <= xs[1][3] <= d["xb2"] + 1e-9
-            ssx.append("SSX %s %s %s %s [%s]" % ("true" if meta["ss"]["ideal"] else "false", "true" if gap else "false", q(d["a0"]), q(d["a1"]),
-                                                "; ".join("SSXC %s %s %s %s %s" % tuple(q(v) for v in x[1:]) for x in xs)))
-            items.append(("ssx", meta["ss"]["ideal"], gap, d["a0"], d["a1"], xs))
-    ssabs = []
-    if d and d.get("ss_in") == 0.0:
-        stored = [c.get("moles") for c in d["comps"].values()]
-        if stored and all(_num(v) for v in stored):
-            tot = sum(Fraction(v) for v in stored)
-            ssabs.append(q(tot))
-            items.append(("ssabs", float(tot)))
+    ssx, ssabs = [], []
+    ss_stages = meta.get("ss_stages") or [meta["ss"]]
+    rows_all = [row] + list(more_rows)
+    for st, ssm in enumerate(ss_stages[:len(rows_all)]):
+        redefined = ssm is not None and st > 0
+        ssm = ssm or meta["ss"]
+        if not ssm:
+            continue
+        r = ss_observations(ssm, rows_all[st], parse_dump_ss(dump, ssm.get("num", 1)) if (st == 0 or redefined) else None,
+                            " [follow-up calculation]" if st > 0 else "")
+        if r is None:
+            return None
+        sss += r[0]
+        ssx += r[1]
+        ssabs += r[2]
+        items += r[3]
     term = "CASE [%s] [%s] [%s] [%s] [%s] [%s]" % ("; ".join(pps), "; ".join(exs), "; ".join(sfs), "; ".join(sss), "; ".join(ssx), "; ".join(ssabs))
     return term, items
 
@@ -674,7 +742,7 @@ def rows_by_state(res):
 
 def evaluate(ctx, jobs):
     res = vlib.run_inputs(jobs, timeout_each=30, workers=min(6, vlib.NCPU))
-    stats = {"run": 0, "error": 0, "timeout": 0, "no_row": 0, "checked": 0, "with_stored_ss": 0, "model_reused": 0}
+    stats = {"run": 0, "error": 0, "timeout": 0, "no_row": 0, "checked": 0, "with_stored_ss": 0, "model_reused": 0, "ss_redefined": 0, "partial": 0}
     terms, keep = [], []
     for j in jobs:
         r = res.get(j["id"]) or {}
@@ -682,11 +750,27 @@ def evaluate(ctx, jobs):
         if r.get("timeout") or r.get("crash"):
             stats["timeout"] += 1
             continue
-        if r.get("rc", 1) != 0 or "dberr" in r:
-            stats["error"] += 1          # run ended with ERROR: outside the premises of the property
+        nst = len(j["meta"].get("stages") or [1])
+        if "dberr" in r:
+            stats["error"] += 1
             continue
         react, init_rows = rows_by_state(r)
-        nst = len(j["meta"].get("stages") or [1])
+        if r.get("rc", 1) != 0:
+            # a calculation ended with ERROR: it is outside the premises, but the calculations of the same run that
+            # completed before it are not (the failing one leaves no row)
+            if nst > 1 and react and len(react) < nst:
+                stats["partial"] += 1
+                j = dict(j)
+                j["meta_full"] = j["meta"]
+                m2 = dict(j["meta"])
+                m2["stages"] = m2["stages"][:len(react)]
+                if m2.get("ss_stages"):
+                    m2["ss_stages"] = m2["ss_stages"][:len(react)]
+                j["meta"] = m2
+                nst = len(react)
+            else:
+                stats["error"] += 1          # run ended with ERROR: outside the premises of the property
+                continue
         if not react or len(react) != nst:
             stats["no_row"] += 1
             continue
@@ -702,6 +786,7 @@ def evaluate(ctx, jobs):
         stats["checked"] += 1
         stats["with_stored_ss"] += any(it[0] == "ssx" for it in items)
         stats["model_reused"] += len(j["meta"].get("stages") or [1]) > 1
+        stats["ss_redefined"] += any(x is not None for x in (j["meta"].get("ss_stages") or [None])[1:])
         m = j["meta"]
         fp = [j["db"], len(m["pps"]), sorted(p["kind"] for p in m["pps"]), (m["exch"] or {}).get("mode"), (m["surf"] or {}).get("mode"), bool(m["ss"]),
               len(m.get("stages") or [1]), [it[5] > 0 for it in items if it[0] == "pp"]]
@@ -710,7 +795,7 @@ def evaluate(ctx, jobs):
             bad = py_verdict(items) or [("?", "case rejected by the verified checker")]
             key = finding_key(j, m, bad)
             ctx.violation(key, "C03 violated: " + " | ".join(b[1] for b in bad),
-                          {"kind": "input", "database": j["db"], "input_text": j["text"], "meta": m,
+                          {"kind": "input", "database": j["db"], "input_text": j["text"], "meta": j.get("meta_full", m),
                            "observed": {k: (v if not isinstance(v, float) else repr(v)) for k, v in row.items()},
                            "expected": "each mineral present with |SI-target|<=1e-6 or absent (0 mol) with SI<=target+1e-6; restrictions respected; "
                                        "site totals within 1e-8; ideal solid-solution activities = mole fractions"})
@@ -738,7 +823,7 @@ def run(ctx):
     if not ok:
         n = max(n, 240)       # a proof about the regenerated code broke: search harder for a concrete failing input
     jobs = corpus() + [gen_case(ctx.rng, i) for i in range(n)]
-    stats = {"run": 0, "error": 0, "timeout": 0, "no_row": 0, "checked": 0, "with_stored_ss": 0, "model_reused": 0}
+    stats = {"run": 0, "error": 0, "timeout": 0, "no_row": 0, "checked": 0, "with_stored_ss": 0, "model_reused": 0, "ss_redefined": 0, "partial": 0}
     B = 400
     for i in range(0, len(jobs), B):
         st = evaluate(ctx, jobs[i:i + B])
